@@ -374,10 +374,12 @@ class DictDecoder:
         """
         if var.is_clazz_union:
             # Union of dataclasses
-            return self.bind_best_dataclass(data, var.types)
+            return self.bind_best_dataclass(data, self.with_subclasses(var.types))
         if var.elements:
             # Compound field with multiple choices
-            return self.bind_best_dataclass(data, var.element_types)
+            return self.bind_best_dataclass(
+                data, self.with_subclasses(var.element_types)
+            )
         if var.any_type or var.is_wildcard:
             # xs:anyType element, check all meta classes
             try:
@@ -403,6 +405,21 @@ class DictDecoder:
             return self.bind_best_dataclass(data, subclasses)
 
         return self.bind_dataclass(data, var.clazz)
+
+    def with_subclasses(self, classes: Iterable[type]) -> list[type]:
+        """Return the model classes followed by their subclasses.
+
+        The xml parser binds xsi:type values to subclasses of the
+        declared types, for compound and union fields as well.
+        """
+        result = list(classes)
+        for clazz in list(result):
+            if self.context.class_type.is_model(clazz):
+                for subclass in self.context.get_subclasses(clazz):
+                    if subclass not in result:
+                        result.append(subclass)
+
+        return result
 
     def bind_derived_value(self, meta: XmlMeta, var: XmlVar, data: dict) -> Any:
         """Bind derived data entrypoint.
